@@ -1,10 +1,12 @@
 #include <AIToolbox/Factored/MDP/CooperativeThompsonModel.hpp>
 
+#include <AIToolbox/Seeder.hpp>
 #include <AIToolbox/Utils/Probability.hpp>
 
 namespace AIToolbox::Factored::MDP {
     CooperativeThompsonModel::CooperativeThompsonModel(const CooperativeExperience & exp, const double discount)
-            : experience_(exp), discount_(discount), transitions_({experience_.getGraph(), {}})
+            : experience_(exp), discount_(discount), transitions_({experience_.getGraph(), {}}),
+              rand_(Seeder::getSeed())
     {
         setDiscount(discount);
 
